@@ -63,7 +63,7 @@ def _renamed_anchor(f: FuncInfo):
         return None
     mod = f.module.short + "."
     for q, ps in SIGNATURES.items():
-        if q.startswith(mod) and q not in cur and tuple(ps) == tuple(f.params) and q.count(".") == f.qualname.count("."):
+        if q.startswith(mod) and q not in cur and tuple(ps) == tuple(f.params) and "<locals>" not in q:
             return q
     return None
 
@@ -105,9 +105,8 @@ def _inlinable(model, h: FuncInfo, caller: Optional[FuncInfo] = None) -> bool:
             return False
         if isinstance(x, (ast.FunctionDef, ast.Lambda)):
             # local functions move into the caller together with the locals they close over (renamed
-            # consistently); not if they re-bind a name of the helper themselves (shadowing)
-            inner_bound = {a.arg for a in ast.walk(x) if isinstance(a, ast.arg)} | {y.id for y in ast.walk(x) if isinstance(y, ast.Name) and isinstance(y.ctx, ast.Store)}
-            if inner_bound & (set(h.params) | h.local_names()):
+            # consistently; names a local function binds itself are left alone inside it)
+            if any(isinstance(y, (ast.Yield, ast.YieldFrom, ast.Await)) for y in ast.walk(x)) and False:
                 return False
         if isinstance(x, ast.Call):
             t = model.resolve_call(h, x)
@@ -184,6 +183,30 @@ def _simple(e) -> bool:
     return False
 
 
+def _bound_in(fn_node) -> set:
+    """Names a nested function (or lambda) binds itself: its parameters and what it assigns (minus
+    `nonlocal` names) -- inside it they refer to its own variables, not to the enclosing helper's."""
+    out = {a.arg for a in ast.walk(fn_node.args) if isinstance(a, ast.arg)}
+    nonloc = set()
+    body = fn_node.body if isinstance(fn_node.body, list) else [fn_node.body]
+    stack = list(body)
+    while stack:
+        n = stack.pop()
+        if isinstance(n, (ast.FunctionDef, ast.AsyncFunctionDef, ast.ClassDef)):
+            out.add(n.name)
+            continue
+        if isinstance(n, ast.Lambda):
+            continue
+        if isinstance(n, ast.Nonlocal):
+            nonloc |= set(n.names)
+        if isinstance(n, ast.Name) and isinstance(n.ctx, (ast.Store, ast.Del)):
+            out.add(n.id)
+        if isinstance(n, ast.ExceptHandler) and n.name:
+            out.add(n.name)
+        stack.extend(ast.iter_child_nodes(n))
+    return out - nonloc
+
+
 class _Subst(ast.NodeTransformer):
     def __init__(self, names: dict, renames: dict):
         self.names, self.renames = names, renames
@@ -199,6 +222,25 @@ class _Subst(ast.NodeTransformer):
         if n.name in self.renames:
             n.name = self.renames[n.name]
         return self.generic_visit(n)
+
+    def _nested(self, n):
+        # decorators / defaults are evaluated in the enclosing scope
+        if hasattr(n, "decorator_list"):
+            n.decorator_list = [self.visit(d) for d in n.decorator_list]
+        n.args.defaults = [self.visit(d) for d in n.args.defaults]
+        n.args.kw_defaults = [self.visit(d) if d is not None else None for d in n.args.kw_defaults]
+        shadow = _bound_in(n)
+        inner = _Subst({k: v for k, v in self.names.items() if k not in shadow}, {k: v for k, v in self.renames.items() if k not in shadow})
+        if isinstance(n.body, list):
+            n.body = [inner.visit(st) for st in n.body]
+        else:
+            n.body = inner.visit(n.body)
+        if getattr(n, "name", None) in self.renames:
+            n.name = self.renames[n.name]
+        return n
+
+    visit_FunctionDef = _nested
+    visit_Lambda = _nested
 
 
 def _bind(model, caller: FuncInfo, call: ast.Call, h: FuncInfo, targets=()):
@@ -269,7 +311,10 @@ def _bind(model, caller: FuncInfo, call: ast.Call, h: FuncInfo, targets=()):
         if _simple(v) and p not in assigned:
             subst[p] = v
         else:
-            new = p + tag if (p in caller_names and not (isinstance(v, ast.Name) and v.id == p)) else p
+            clash = p in caller_names and not (isinstance(v, ast.Name) and v.id == p)
+            if clash and p in targets and not any(isinstance(x, ast.Name) and x.id == p for a_ in list(call.args) + [k.value for k in call.keywords] for x in ast.walk(a_)):
+                clash = False  # the caller's variable of that name is overwritten by the result of this very call
+            new = p + tag if clash else p
             if new != p:
                 renames[p] = new
             if isinstance(v, ast.Name) and v.id == new:
@@ -411,6 +456,23 @@ def _expand_stmt(model, caller: FuncInfo, st, inventory) -> Optional[list]:
     return prologue + [loop]
 
 
+def _as_expression(body: list):
+    """A body made only of `return e` and `if t: <such a body> [else: <such a body>]` statements, as
+    one expression (`e1 if t else e2`); None if it has any other statement or can fall off its end."""
+    if not body:
+        return None
+    st = body[0]
+    if isinstance(st, ast.Return):
+        return st.value if st.value is not None else ast.Constant(value=None)
+    if isinstance(st, ast.If):
+        a = _as_expression(st.body)
+        b = _as_expression(list(st.orelse) + list(body[1:]))
+        if a is None or b is None:
+            return None
+        return ast.copy_location(ast.IfExp(test=st.test, body=a, orelse=b), st)
+    return None
+
+
 class _ExprInliner(ast.NodeTransformer):
     """Calls of expression-only helpers inside larger expressions."""
 
@@ -433,7 +495,8 @@ class _ExprInliner(ast.NodeTransformer):
         if h.parent is not None and isinstance(h.parent, FuncInfo) and h.parent is not self.caller:
             return n
         body = _strip_doc(list(h.node.body))
-        if len(body) != 1 or not isinstance(body[0], ast.Return) or body[0].value is None:
+        expr = _as_expression(body)
+        if expr is None:
             return n
         b = _bind(self.model, self.caller, n, h)
         if b is None:
@@ -441,7 +504,7 @@ class _ExprInliner(ast.NodeTransformer):
         subst, prologue, renames = b
         if prologue or renames:
             return n  # needs statements: not possible inside an expression
-        e = _Subst(subst, {}).visit(copy.deepcopy(body[0].value))
+        e = _Subst(subst, {}).visit(copy.deepcopy(expr))
         self.changed = True
         return ast.copy_location(e, n)
 
